@@ -141,7 +141,8 @@ def programs(tier: str) -> list:
             progs.append((f"{sid}{{{iid}}}", "stmt", tpl.replace("{e}", "a").replace("{b}", body)))
     # the same expressions in constraints / generators / repetition bounds, with a symbol reference
     # (a symbol directly followed by [..] or .name is Fandango selector syntax, not Python: those constructs are left out here)
-    no_symbol_ctx = {"sub", "slice2", "slice3", "sliceall", "slicestep", "subtuple", "slicetuple", "sliceneg", "attr", "attrcall", "fstr_text", "callcallee"}
+    no_symbol_ctx = {"sub", "slice2", "slice3", "sliceall", "slicestep", "subtuple", "slicetuple", "sliceneg", "attr", "attrcall", "fstr_text", "callcallee",
+                     "callstar"}  # f(*<a>) is Fandango's star selection (all matches as one list), not Python unpacking
     for cid, src in d1:
         if cid in no_symbol_ctx:
             continue
